@@ -103,6 +103,11 @@ def units():
                       "tier": "quick" if (ch == 1 and sub in ("IMA_ADPCM", "GSM610", "PCM_16")) else "thorough", "pre_gi_flags": ["--remove-function-body", "psf_log_printf"],
                       "kind": "enumerated(encoding=%s, channels=%d); audio bytes L and frames symbolic" % (sub, ch),
                       "trusted": ["codec initialisers replaced by call-counting stand-ins (block codecs leave bytewidth 0 as the real ones do)", "harness virtual-I/O callbacks"]})
+    U.append({"name": "mat5.mat5_write_header", "props": ["C04", "C10"], "harness": "mat5_hdr.harness.c", "entry": "h_mat5_write_header", "dfcc": False,
+              "function": "mat5.c:mat5_write_header", "timeout": 900, "cbmc_flags": ["--object-bits", "9", "--unwind", "130"],
+              "kind": "proof(plain harness; rate, channels, frames, encoding, byte order symbolic; loops over literal strings unwound completely)",
+              "trusted": ["E1 recording model of psf_binheader_writef (byte count from the format string; recognises the sample-rate and dimension elements)",
+                          "the date text of the banner is a short string", "the reader's accepted element tags are named by their constants (mat5_read_header)"]})
     # WAV length bookkeeping (DFCC): header writer and tailer
     for bw in (0, 2, 3):
         for ch in (1, 2):
